@@ -137,11 +137,18 @@ UseTags(S) == SetTags("use", S, S)
 EnableTags(S) == SetTags("enable", S, tags \cup S)
 DisableTags(S) == SetTags("disable", S, tags \ S)
 
+\* Blocker::add_filter: a rule that is already stored is refused (FilterExists) and nothing changes; the
+\* duplicate test is best effort on an optimised engine (a fused rule hides its members), where a second
+\* copy may be stored - which changes no answer
+ReAddable == IF Mode = "blocker" /\ InitSet = "full" THEN {3, 10} ELSE {}
 AddFilter(i) ==
-  /\ Mode = "blocker" /\ Len(hist) < Depth - 1 /\ i \notin SeqToSet(rules)
-  /\ rules' = Append(rules, i) /\ UNCHANGED <<tags, blob>>
-  /\ IF PoolX[i].tag # "" THEN Retag(Append(rules, i), tags) ELSE UNCHANGED <<heap, cache>>
-  /\ UNCHANGED store /\ Op([op |-> "add", rule |-> RuleText(PoolX[i]), now |-> tags])
+  /\ Mode = "blocker" /\ Len(hist) < Depth - 1
+  /\ LET exists == i \in SeqToSet(rules) IN
+     /\ (exists => i \in ReAddable)
+     /\ rules' = IF exists THEN rules ELSE Append(rules, i)
+     /\ UNCHANGED <<tags, blob>>
+     /\ IF ~exists /\ PoolX[i].tag # "" THEN Retag(Append(rules, i), tags) ELSE UNCHANGED <<heap, cache>>
+     /\ UNCHANGED store /\ Op([op |-> "add", rule |-> RuleText(PoolX[i]), now |-> tags, exists |-> exists])
 
 Optimize ==
   /\ Mode = "blocker" /\ Len(hist) < Depth - 1
@@ -198,7 +205,7 @@ Next == \/ (Ops # "res" /\ \E S \in TagSets : UseTags(S))
         \/ (\E sq \in UseChoices : UseResources(sq)) \/ (\E i \in DOMAIN ResPool : AddResource(i))
         \/ (Ops = "res" /\ (Serialize \/ Deserialize))
         \/ (Ops = "all" /\ \E t \in {"t1", "t2"} : EnableTags({t}) \/ DisableTags({t}))
-        \/ (Ops = "all" /\ \E i \in Addable : AddFilter(i))
+        \/ (Ops = "all" /\ \E i \in Addable \cup ReAddable : AddFilter(i))
         \/ (Ops = "all" /\ (Optimize \/ Serialize \/ Deserialize))
         \/ Discard \/ Query
 
